@@ -24,7 +24,7 @@ impl Number {
         // negate the value, not the text: gluing a second `-` in front of an already negative
         // constant produced `--5`, and `-0` must stay the integer 0.
         Some(match self {
-            Integer(x) => Integer(x.parse::<i128>().ok()?.checked_neg()?.to_string()),
+            Integer(x) => Integer(x.parse::<i32>().ok()?.checked_neg()?.to_string()),
             BigInt(x) => BigInt(x.parse::<i128>().ok()?.checked_neg()?.to_string()),
             Float(x) => Float((-x.parse::<f64>().ok()?).to_string()),
             Byte(_) => return None,
